@@ -120,6 +120,7 @@ fn gen_case(seed: u64, tier: Tier) -> Case {
 		seek_gran: *rng.pick(&[1usize, 1, 2, 3, 16, 64, 1000]),
 		fail_decode: vec![],
 		fail_seek: vec![],
+		fail_sticky: false,
 	};
 	let device_rate = if rng.chance(0.6) { sample_rate } else { *rng.pick(&[8000u32, 44_100, 48_000, 96_000]) };
 	let budget = match tier {
